@@ -1712,7 +1712,195 @@ async def annotations_mean_what_they_say():
     return out == want, f"{out}"
 
 
-SCENARIOS = {f.__name__: f for f in (annotations_mean_what_they_say, default_name_is_remapped_only_while_starting, parent_is_the_current_context_itself, refused_entry_changes_nothing, left_from_another_task_is_closed_all_the_same, factories_waiting_on_each_other_complete, nested_tree_publications_release_waiters, timeout_watches_every_tree, every_registration_of_a_component_is_torn_down, generic_alias_types_are_found_by_every_lookup, optional_injection_is_the_optional_lookup, start_value_and_failed_starts, hard_coded_kwargs_reach_the_child_as_they_are,
+async def failed_adds_of_unusual_shapes_change_nothing():
+    """C03: an add_resource / add_resource_factory call that raises FOR ANY REASON leaves the context observably
+    unchanged -- also when what makes it raise is a type that is a class but cannot be hashed (after an ordinary type
+    in the same call), and also through a component's view of the context with a factory callback `typing` cannot
+    introspect (a partial, a callable object) given together with explicit types: whatever such a call does, it does
+    not BOTH raise AND leave the factory registered"""
+    import functools
+    from asphalt.core import Component, start_component
+
+    class Meta(type):
+        __hash__ = None
+
+        def __eq__(cls, other):
+            return cls is other
+
+    class Unhashable(metaclass=Meta):
+        pass
+    out = {}
+    events = []
+    ran = []
+    async with Context() as ctx:
+        async with ctx.resource_added.stream_events() as stream:
+            try:
+                ctx.add_resource(A("refused"), "x", types=[A, Unhashable], teardown_callback=lambda: ran.append("refused"))
+                out["unhashable"] = "accepted"
+            except TypeError:
+                out["unhashable"] = "TypeError"
+            except BaseException as e:  # noqa
+                out["unhashable"] = type(e).__name__
+            out["nothing_under_A"] = ctx.get_resource_nowait(A, "x", optional=True) is None and not ctx.get_resources(A) \
+                and (await ctx.get_resource(A, "x", optional=True)) is None
+            try:
+                ctx.add_resource(A("second"), "x")
+                out["pair_still_free"] = True
+            except BaseException as e:  # noqa
+                out["pair_still_free"] = type(e).__name__
+
+            def make_b():
+                return B("made")
+
+            class CallableFactory:
+                def __call__(self):
+                    return B("made by an object")
+            verdicts = {}
+
+            class Comp(Component):
+                async def start(self):
+                    view = current_context()
+                    for label, cb in (("partial", functools.partial(make_b)), ("object", CallableFactory())):
+                        try:
+                            view.add_resource_factory(cb, label, types=[B])
+                            verdicts[label] = "registered"
+                        except BaseException as e:  # noqa
+                            there = True
+                            try:
+                                ctx.add_resource_factory(make_b, label, types=[B])
+                                there = False
+                            except BaseException:  # noqa
+                                pass
+                            verdicts[label] = f"raised {type(e).__name__} and the factory is " + ("REGISTERED" if there else "not registered")
+            await start_component(Comp)
+            out["component_factories"] = verdicts
+            ctx.add_resource(A("sentinel"), "sentinel")
+            async for ev in stream:
+                if ev.resource_name == "sentinel":
+                    break
+                events.append((ev.resource_name, ev.is_factory))
+    out["events"] = events
+    out["ran"] = ran
+    ok = out["unhashable"] == "TypeError" and out["nothing_under_A"] and out["pair_still_free"] is True and ran == [] \
+        and all(v == "registered" or v.endswith("not registered") for v in verdicts.values()) and len(verdicts) == 2 \
+        and ("x", False) in events and [e for e in events if e[0] == "x"] == [("x", False)] \
+        and all(len([e for e in events if e[0] == lab]) == (1 if verdicts[lab] == "registered" else 0) for lab in verdicts)
+    return ok, f"{out}"
+
+
+async def partly_shadowed_factory_releases_its_waiter():
+    """C06: a request is released as soon as any component has published a matching resource FACTORY -- also a factory
+    of two types of which the other one is already taken by a regular resource of that name"""
+    from asphalt.core import Component, add_resource, add_resource_factory, get_resource, start_component
+    got = {}
+
+    class TA:
+        pass
+
+    class TB:
+        pass
+
+    class Waiter(Component):
+        async def start(self):
+            got["b"] = await get_resource(TB, "shared")
+
+    class Provider(Component):
+        async def start(self):
+            add_resource(TA(), "shared")
+            await anyio.sleep(0.1)                  # the waiter's request is pending by now
+            add_resource_factory(lambda: TB(), "shared", types=[TA, TB])
+
+    class Root(Component):
+        def __init__(self):
+            self.add_component("waiter", Waiter)
+            self.add_component("provider", Provider)
+    err = None
+    async with Context():
+        try:
+            with anyio.fail_after(5):
+                await start_component(Root, {}, timeout=1.5)
+        except BaseException as e:  # noqa
+            err = f"{type(e).__name__}: {str(e)[:80]}"
+    return err is None and isinstance(got.get("b"), TB), f"error={err}, got={ {k: type(v).__name__ for k, v in got.items()} }"
+
+
+async def refused_resource_of_a_failed_start_leaves_no_callback():
+    """C07 (and C03): what was registered before the failure stays owned by the surrounding context and is torn down
+    in reverse order when it is left -- and ONLY that: the teardown callback that came with the add_resource() call
+    which failed (a conflict with a sibling's resource) was never registered and does not run"""
+    from asphalt.core import Component, ComponentStartError, ResourceConflict, add_resource, start_component
+    log = []
+
+    class First(Component):
+        async def start(self):
+            add_resource(A("primary"), "pool", teardown_callback=lambda: log.append("primary closed"))
+
+    class Second(Component):
+        async def start(self):
+            await anyio.sleep(0.05)
+            add_resource(B("own"), "own", teardown_callback=lambda: log.append("own closed"))
+            add_resource(A("replica"), "pool", teardown_callback=lambda: log.append("replica closed"))
+
+    class Root(Component):
+        def __init__(self):
+            self.add_component("first", First)
+            self.add_component("second", Second)
+    err = None
+    async with Context():
+        try:
+            await start_component(Root, {}, timeout=3)
+        except ComponentStartError as e:
+            err = "ComponentStartError" + ("(ResourceConflict)" if isinstance(e.__cause__, ResourceConflict) else f"({e.__cause__!r})")
+        except BaseException as e:  # noqa
+            err = type(e).__name__
+        before = list(log)
+    ok = err == "ComponentStartError(ResourceConflict)" and before == [] and log == ["own closed", "primary closed"]
+    return ok, f"error={err}, callbacks before the context was left={before}, at teardown={log}"
+
+
+async def registration_during_a_service_tasks_stop():
+    """C08 (and C01): a teardown callable is invoked EXACTLY once, also when it (or a callback that runs beside it)
+    registers something on the owning context while the teardown is under way -- that late registration runs, once,
+    before the callbacks registered earlier; and a service task started from a teardown callback is stopped and
+    waited for like any other: nothing is still running once the block has been left"""
+    log = []
+    running = set()
+    async with Context() as owner:
+        owner.add_teardown_callback(lambda: log.append("earliest"))
+        stop = anyio.Event()
+
+        async def worker():
+            running.add("worker")
+            try:
+                await stop.wait()
+                await anyio.sleep(0.02)
+            finally:
+                running.discard("worker")
+                log.append("worker finished")
+
+        def stop_worker():
+            log.append("action")
+            owner.add_teardown_callback(lambda: log.append("handed over by the action"))
+            stop.set()
+        await owner.start_service_task(worker, "worker", teardown_action=stop_worker)
+
+        async def late():
+            running.add("late")
+            try:
+                await anyio.sleep_forever()
+            finally:
+                running.discard("late")
+                log.append("late finished")
+
+        async def starts_a_task():
+            log.append("starter")
+            await owner.start_service_task(late, "late")
+        owner.add_teardown_callback(starts_a_task)
+    want = ["starter", "late finished", "action", "worker finished", "handed over by the action", "earliest"]
+    return log == want and not running, f"log={log} (expected {want}), still running={sorted(running)}"
+
+
+SCENARIOS = {f.__name__: f for f in (failed_adds_of_unusual_shapes_change_nothing, partly_shadowed_factory_releases_its_waiter, refused_resource_of_a_failed_start_leaves_no_callback, registration_during_a_service_tasks_stop, annotations_mean_what_they_say, default_name_is_remapped_only_while_starting, parent_is_the_current_context_itself, refused_entry_changes_nothing, left_from_another_task_is_closed_all_the_same, factories_waiting_on_each_other_complete, nested_tree_publications_release_waiters, timeout_watches_every_tree, every_registration_of_a_component_is_torn_down, generic_alias_types_are_found_by_every_lookup, optional_injection_is_the_optional_lookup, start_value_and_failed_starts, hard_coded_kwargs_reach_the_child_as_they_are,
                                      overriding_signal_has_its_own_event_class, second_half_runs_at_the_outer_teardown, rejected_add_registers_no_callback,
                                      wait_finished_means_completely_finished, dead_iterator_inside_its_block_disturbs_nobody,
                                      racing_lookups_generate_once, failing_factory_leaves_the_current_context_alone,
